@@ -280,12 +280,12 @@ func runC19(pl *plan.Plan, out *plan.Outcome) {
 	if len(got) != len(expected) {
 		env.Violate("count", "", "%d data records were handed to the producer, %d Kafka messages were published", len(expected), len(got))
 	}
-	kc := consumer.NewKafkaConsumer(consumer.ConsumerInput{KafkaTopic: topic, MsgDelimitWithLen: true, KafkaProtoSchema: func() proto.Message {
-		if schema == 2 {
-			return &pb.FlowType2{}
-		}
-		return &pb.FlowType1{}
-	}()})
+	// one consumer (and one schema message) for the whole stream, as a real consumer has
+	var consumerMsg proto.Message = &pb.FlowType1{}
+	if schema == 2 {
+		consumerMsg = &pb.FlowType2{}
+	}
+	kc := consumer.NewKafkaConsumer(consumer.ConsumerInput{KafkaTopic: topic, MsgDelimitWithLen: true, KafkaProtoSchema: consumerMsg})
 	for i := 0; i < len(got) && i < len(expected); i++ {
 		h, e := got[i], expected[i]
 		if h.pm.Topic != topic {
@@ -358,6 +358,9 @@ func runC19(pl *plan.Plan, out *plan.Outcome) {
 		chk("SrcPodNamespace", f.GetSrcPodNamespace(), e.srcNS)
 		if err := kc.DecodeAndPrintMsg(&sarama.ConsumerMessage{Topic: topic, Value: p}); err != nil {
 			env.Violate("consumer-decode", "", "message %d: the consumer-side decoder rejects the payload: %v", i, err)
+		} else if !proto.Equal(consumerMsg, m) {
+			// the consumer must recover exactly the field values the payload carries
+			env.Violate("consumer-decode", "values", "message %d: the consumer-side decoder recovered %v, the payload carries %v", i, consumerMsg, m)
 		}
 		if len(out.Violations) > 0 {
 			break
